@@ -47,14 +47,15 @@ func (c10Discard) Write(p []byte) (int, error) { return len(p), nil }
 // topology generation
 
 type c10Topo struct {
-	sockets, numaPerSocket, coresPerNuma, smt int
-	layout                                    string // dense | sibling | offset
-	offline                                   int    // CPUs removed from the list (offline / not reported)
-	procs                                     []koordletutil.ProcessorInfo
+	sockets, nodes, coresPerSocket, smt int
+	arrange                             string // nested | spanning | interleaved | sparse-ids | collide
+	layout                              string // dense | sibling | offset
+	offline                             int    // CPUs removed from the list (offline / not reported)
+	procs                               []koordletutil.ProcessorInfo
 }
 
 func (t c10Topo) shape() string {
-	return fmt.Sprintf("%ds x %dn x %dc x %dt %s off=%d", t.sockets, t.numaPerSocket, t.coresPerNuma, t.smt, t.layout, t.offline)
+	return fmt.Sprintf("%ds x %dn(%s) x %dc/s x %dt %s off=%d", t.sockets, t.nodes, t.arrange, t.coresPerSocket, t.smt, t.layout, t.offline)
 }
 
 // c10SizeClass abstracts the CPU count for the distinct-state evidence.
@@ -72,58 +73,154 @@ func c10SizeClass(n int) string {
 		return "17-32"
 	case n <= 64:
 		return "33-64"
+	case n <= 128:
+		return "65-128"
 	}
-	return "65-128"
+	return ">128"
+}
+
+// c10BucketCollisions counts pairs of distinct (node, socket) combinations of the list that
+// calculateBESuppressCPUSetPolicy's arithmetic bucket index (node+len)*(socket+1) maps to one
+// bucket. Evidence only (no oracle depends on it): it shows that the generated topologies reach
+// the merged-bucket path.
+func c10BucketCollisions(list []koordletutil.ProcessorInfo) int {
+	n := int32(len(list))
+	type ns struct{ node, socket int32 }
+	byIdx := map[int32]map[ns]bool{}
+	for _, p := range list {
+		idx := (p.NodeID + n) * (p.SocketID + 1)
+		if byIdx[idx] == nil {
+			byIdx[idx] = map[ns]bool{}
+		}
+		byIdx[idx][ns{p.NodeID, p.SocketID}] = true
+	}
+	c := 0
+	for _, m := range byIdx {
+		c += len(m) - 1
+	}
+	return c
 }
 
 // c10GenTopo builds a processor list as the koordlet's lscpu reader does: one entry per online
-// logical CPU, system-wide unique logical core numbers, global NUMA node ids, sorted by
-// (node, socket, core, cpu). 1..128 CPUs, SMT 1/2/4, 1-4 NUMA nodes, 1-2 sockets. Logical ids are
-// dense (siblings adjacent), sibling-sparse (siblings N/smt apart, the usual Linux numbering) or
-// offset (ids start above 0 with gaps); optionally some CPUs are missing (offline), which leaves
-// cores with an odd number of threads.
+// logical CPU, system-wide unique logical core numbers, sorted by (node, socket, core, cpu).
+// Mostly 1..128 CPUs (5%: up to 512), SMT 1/2/4 (rarely 8), 1/2/4/8 sockets. NUMA arrangement:
+//
+//	nested       1, 2 or 4 NUMA nodes inside each socket, ids 0..k-1 (the usual x86 layout)
+//	spanning     one NUMA node spans 2 or 4 sockets (as in the package's own 16-CPU fixture)
+//	interleaved  consecutive cores alternate between the NUMA nodes (node ids not nested in sockets)
+//	sparse-ids   nested, but node ids and socket ids come from sparse id spaces that do not start
+//	             at 0 (POWER reports nodes like 0, 8, 252-255; package ids need not be contiguous)
+//	collide      two sockets whose (node, socket) pairs are (0, 1) and (N, 0), N = number of CPUs:
+//	             the pair the arithmetic bucket index of the selection maps to one bucket
+//
+// Logical ids are dense (siblings adjacent), sibling-sparse (siblings N/smt apart, the usual Linux
+// numbering) or offset (ids start above 0 with gaps); optionally some CPUs are missing (offline),
+// which leaves cores with an odd number of threads.
 func c10GenTopo(r *kit.Rand) c10Topo {
 	t := c10Topo{
-		sockets:       kit.Pick(r, []int{1, 1, 2}),
-		numaPerSocket: kit.Pick(r, []int{1, 1, 2}),
-		smt:           kit.Pick(r, []int{1, 2, 2, 2, 4}),
-		layout:        kit.Pick(r, []string{"dense", "dense", "sibling", "sibling", "offset"}),
+		sockets: kit.Pick(r, []int{1, 1, 1, 2, 2, 2, 4, 8}),
+		smt:     kit.Pick(r, []int{1, 2, 2, 2, 2, 4, 4, 8}),
+		layout:  kit.Pick(r, []string{"dense", "dense", "sibling", "sibling", "offset"}),
+		arrange: kit.Pick(r, []string{"nested", "nested", "nested", "spanning", "interleaved", "sparse-ids", "collide"}),
 	}
-	maxCores := 128 / (t.sockets * t.numaPerSocket * t.smt)
+	if t.smt == 8 && !r.Pct(25) {
+		t.smt = 2
+	}
+	maxCPUs := 128
+	if r.Pct(5) {
+		maxCPUs = 512
+	}
+	numaPerSocket := 1
+	switch t.arrange {
+	case "nested", "sparse-ids":
+		numaPerSocket = kit.Pick(r, []int{1, 1, 2, 2, 4})
+		for t.sockets*numaPerSocket*t.smt > maxCPUs {
+			numaPerSocket /= 2
+		}
+		t.nodes = t.sockets * numaPerSocket
+	case "spanning":
+		if t.sockets == 1 {
+			t.sockets = 2
+		}
+		t.nodes = c10Max(1, t.sockets/kit.Pick(r, []int{2, 4}))
+	case "interleaved":
+		t.nodes = kit.Pick(r, []int{2, 2, 3, 4, 8})
+	case "collide":
+		t.sockets, t.nodes = 2, 2
+	}
+	maxCores := c10Max(1, maxCPUs/(t.sockets*t.smt))
+	minCores := 1
+	if t.arrange == "nested" || t.arrange == "sparse-ids" {
+		minCores = numaPerSocket // at least one core per NUMA node
+	}
 	switch r.Intn(5) {
 	case 0:
-		t.coresPerNuma = 1
+		t.coresPerSocket = minCores
 	case 1:
-		t.coresPerNuma = r.Range(1, c10Min(4, maxCores))
+		t.coresPerSocket = r.Range(minCores, c10Max(minCores, c10Min(4*minCores, maxCores)))
 	case 2:
-		t.coresPerNuma = maxCores
+		t.coresPerSocket = maxCores
 	default:
-		t.coresPerNuma = r.Range(1, maxCores)
+		t.coresPerSocket = r.Range(minCores, c10Max(minCores, maxCores))
 	}
 	if r.Pct(6) { // the smallest machines explicitly
-		t.sockets, t.numaPerSocket, t.coresPerNuma = 1, 1, 1
-		t.smt = kit.Pick(r, []int{1, 2, 4})
+		t.sockets, t.nodes, t.coresPerSocket, t.arrange = 1, 1, 1, "nested"
+		numaPerSocket, t.smt = 1, kit.Pick(r, []int{1, 2, 4})
 	}
-	totalCores := t.sockets * t.numaPerSocket * t.coresPerNuma
+	totalCores := t.sockets * t.coresPerSocket
+	// id tables
+	nodeID := make([]int, t.nodes)
+	for i := range nodeID {
+		nodeID[i] = i
+	}
+	socketID := make([]int, t.sockets)
+	for i := range socketID {
+		socketID[i] = i
+	}
+	switch t.arrange {
+	case "sparse-ids":
+		pool := []int{0, 1, 2, 3, 5, 8, 9, 16, 17, 31, 64, 252, 253, 254, 255}
+		picks := r.Perm(len(pool))[:c10Min(t.nodes, len(pool))]
+		sort.Ints(picks)
+		for i := range nodeID {
+			nodeID[i] = pool[picks[i%len(picks)]] + 256*(i/len(picks))
+		}
+		base, stride := kit.Pick(r, []int{0, 0, 1, 2}), kit.Pick(r, []int{1, 2, 3})
+		for i := range socketID {
+			socketID[i] = base + i*stride
+		}
+	case "collide":
+		n := totalCores * t.smt
+		socketID[0], socketID[1] = 1, 0
+		nodeID[0], nodeID[1] = 0, n
+	}
 	stride, base := 1, 0
 	if t.layout == "offset" {
 		stride, base = r.Range(1, 3), r.Range(1, 64)
 	}
 	core := 0
 	for s := 0; s < t.sockets; s++ {
-		for n := 0; n < t.numaPerSocket; n++ {
-			node := s*t.numaPerSocket + n
-			for c := 0; c < t.coresPerNuma; c++ {
-				for p := 0; p < t.smt; p++ {
-					id := core*t.smt + p
-					if t.layout == "sibling" {
-						id = p*totalCores + core
-					}
-					id = base + id*stride
-					t.procs = append(t.procs, koordletutil.ProcessorInfo{CPUID: int32(id), CoreID: int32(core), SocketID: int32(s), NodeID: int32(node), Online: "yes"})
-				}
-				core++
+		for c := 0; c < t.coresPerSocket; c++ {
+			var node int
+			switch t.arrange {
+			case "nested", "sparse-ids":
+				node = s*numaPerSocket + c*numaPerSocket/t.coresPerSocket
+			case "spanning":
+				node = s * t.nodes / t.sockets
+			case "interleaved":
+				node = core % t.nodes
+			case "collide":
+				node = s
 			}
+			for p := 0; p < t.smt; p++ {
+				id := core*t.smt + p
+				if t.layout == "sibling" {
+					id = p*totalCores + core
+				}
+				id = base + id*stride
+				t.procs = append(t.procs, koordletutil.ProcessorInfo{CPUID: int32(id), CoreID: int32(core), SocketID: int32(socketID[s]), NodeID: int32(nodeID[node]), Online: "yes"})
+			}
+			core++
 		}
 	}
 	if r.Pct(20) && len(t.procs) > 1 {
